@@ -1,7 +1,7 @@
 #!/bin/bash
 # copy every finished seeded change from /tmp/mut_out/a*/Cxx_k to /verif/seeded and run the checks against it
 cd /verif
-for d in /tmp/mut_out/a*/C??_?; do
+for d in ${SEED_SRC:-/tmp/mut_out}/a*/C??_?; do
   n=$(basename $d)
   [ -f $d/patch.diff ] && [ -f $d/demo.py ] && [ -f $d/meta.json ] || continue
   [ -f seeded/$n/result.json ] && continue
